@@ -60,6 +60,8 @@ func (m *machine) findIntrinsic(fn *ssa.Function) intrinsic {
 		}
 	}
 	switch pkg {
+	case badgerPkg:
+		return badgerStub(m, fn, name, base)
 	case "github.com/sirupsen/logrus":
 		return logrusStub
 	case "fmt":
@@ -264,6 +266,7 @@ func init() {
 		"verifSymbolic":     func(m *machine, c *frame, fn *ssa.Function, a []value) value { return true },
 		"verifMapOrder":     verifMapOrder,
 		"verifKnown":        verifKnown,
+		"verifTempDir":      verifTempDir,
 		"verifKey":          verifKeyStub,
 		"verifSignature":    verifSignatureStub,
 	}
@@ -570,6 +573,13 @@ func (m *machine) renderObserves(model map[string]uint64) []string {
 
 func verifKnown(m *machine, c *frame, fn *ssa.Function, a []value) value {
 	return nil
+}
+
+// verifTempDir: a fresh directory name for a Badger database (natively a real
+// temporary directory, removed when the replay ends).
+func verifTempDir(m *machine, c *frame, fn *ssa.Function, a []value) value {
+	m.p.tmpDirs++
+	return fmt.Sprintf("/model-tmp/%s-%d", nameArg(a[0]), m.p.tmpDirs)
 }
 
 func verifMapOrder(m *machine, c *frame, fn *ssa.Function, a []value) value {
